@@ -378,6 +378,35 @@ func (w *World) CheckKids(tx *bbolt.Tx, m *Model) error {
 				return fmt.Errorf("child store %s: IsEntityPresent(%q) = %v, model %v", name, id, !has, has)
 			}
 		}
+		if cc.UniqueExtra {
+			// the child store's own unique index: exactly the non-empty extra values of the entities with child data
+			want := map[string]string{}
+			for _, id := range withData {
+				if x := m.Ents[cc.Parent][id].Kid[name]; x != "" {
+					want[x] = id
+				}
+			}
+			got := map[string]string{}
+			if b := rawBucket(tx, m.Cfg.PathOf(boltz.IndexesBucket, cc.Parent, FExtra)...); b != nil {
+				_ = b.ForEach(func(k, v []byte) error {
+					got[string(k)] = string(v)
+					return nil
+				})
+			}
+			for v, id := range want {
+				if got[v] != id {
+					return fmt.Errorf("child store %s: unique index on extra: value %q should map to %q, index has %q", name, v, id, got[v])
+				}
+				if r := w.Unique[name+"."+FExtra].Read(tx, []byte(v)); string(r) != id {
+					return fmt.Errorf("child store %s: unique index on extra: Read(%q) = %q, want %q", name, v, r, id)
+				}
+			}
+			for v, id := range got {
+				if _, ok := want[v]; !ok {
+					return fmt.Errorf("child store %s: unique index on extra: stale entry %q -> %q", name, v, id)
+				}
+			}
+		}
 		if _, found, _ := ks.FindById(tx, "zz-absent"); found {
 			return fmt.Errorf("child store %s: FindById of an id that was never created reports found", name)
 		}
